@@ -701,6 +701,23 @@ Theorem C18_low_index_multiples_refuted :
 Proof. exact low_index_multiples_refuted. Qed.
 Print Assumptions C18_low_index_multiples_refuted.
 
+(** KNOWN FINDINGS C18-infer-subcommands / C18-infer-long-args (found in round 5, not repaired): the engine knows neither
+    [Command::infer_subcommands] nor [Command::infer_long_args].  (1) `p(--pf; infer_subcommands) -> sub(--so)`: the parser reads `su` as
+    `sub` and accepts `p su`; the engine stays at `p`, offers `--pf`; `p su --pf` is UnknownArgument.  (2) `p(--pf; --option <v>;
+    infer_long_args) -> sub(--so)`: the parser reads `--opti` as `--option` with the value `sub` (`p --opti sub` accepted at `p`); the
+    engine does not recognise `--opti`, descends on `sub`, offers `--so`; `p --opti sub --so` is UnknownArgument.  Same on the real crate *)
+Theorem C18_inferred_names_refuted :
+  Infer.chain_of (parse_top Infer.c1 [[112]; Infer.su]) = Some [Infer.w_sub] /\
+  Infer.level_at Infer.c1 [[112]; Infer.su; [45; 45]] 2 = Some [112] /\
+  Infer.has_cand (Infer.ddw Infer.w_pf) (IdArg Infer.w_pf) (complete_model [] Infer.c1 [[112]; Infer.su; [45; 45]] 2) = true /\
+  Infer.kind_of (parse_top Infer.c1 [[112]; Infer.su; Infer.ddw Infer.w_pf]) = Some EUnknownArgument /\
+  Infer.chain_of (parse_top Infer.c2 [[112]; Infer.opti; Infer.w_sub]) = Some [] /\
+  Infer.level_at Infer.c2 [[112]; Infer.opti; Infer.w_sub; [45; 45]] 3 = Some Infer.w_sub /\
+  Infer.has_cand (Infer.ddw Infer.w_so) (IdArg Infer.w_so) (complete_model [] Infer.c2 [[112]; Infer.opti; Infer.w_sub; [45; 45]] 3) = true /\
+  Infer.kind_of (parse_top Infer.c2 [[112]; Infer.opti; Infer.w_sub; Infer.ddw Infer.w_so]) = Some EUnknownArgument.
+Proof. exact inferred_names_refuted. Qed.
+Print Assumptions C18_inferred_names_refuted.
+
 (** * Round 5: lines with the ESCAPE `--` (Complete/EngineEscape.v) - beyond the letter of the property, whose acceptance clause
       speaks of positions "before any `--`"
 
